@@ -116,6 +116,10 @@ fn show(log: &[G]) -> String {
 /// (group_by FORM KEYFN (calls EV...)) with FORM one of local-hot, local-cold, threads-hot, threads-cold
 pub fn run_group_by(body: &[Sexp]) -> String {
   let form = body[0].atom();
+  let stateful = matches!(&body[1], Sexp::Atom(a) if a == "chunk2");
+  if stateful || body.len() > 3 {
+    return run_group_by_variant(body, stateful);
+  }
   let f = Fn1::parse(&body[1]);
   let calls: Vec<Ev> = body[2].args().iter().map(Ev::parse).collect();
   let log: GLog = GLog::default();
@@ -155,6 +159,47 @@ pub fn run_group_by(body: &[Sexp]) -> String {
       }
     }
     f => panic!("bad group_by form {f}"),
+  }
+  let l = log.lock().unwrap().clone();
+  show(&canonical(&l))
+}
+
+/// (group_by FORM KEYFN|chunk2 (calls EV...) [(take N)]): a create() source; `chunk2` is a key function with a state of
+/// its own (the n-th call answers n / 2); (take N) cuts the stream of groups after N announcements
+fn run_group_by_variant(body: &[Sexp], stateful: bool) -> String {
+  let form = body[0].atom();
+  let log: GLog = GLog::default();
+  let mut l = vec![Sexp::Atom("create".into())];
+  l.extend_from_slice(body[2].args());
+  let src = crate::chain::local::build_src(&Sexp::List(l));
+  let calls = std::cell::Cell::new(0i64);
+  let f = if stateful { None } else { Some(Fn1::parse(&body[1])) };
+  let key = move |v: &Val| match &f {
+    Some(f) => f.apply(v),
+    None => {
+      let n = calls.get();
+      calls.set(n + 1);
+      Val::Z(n / 2)
+    }
+  };
+  let take: Option<usize> = body.get(3).map(|t| t.args()[0].usize());
+  macro_rules! go {
+    ($subj:ty) => {{
+      let g = src.group_by::<_, _, $subj>(key);
+      match take {
+        Some(n) => {
+          let _u = ObservableExt::<KeyObservable<Val, $subj>, i64>::take(g, n).actual_subscribe(OuterProbe { log: log.clone() });
+        }
+        None => {
+          let _u = g.actual_subscribe(OuterProbe { log: log.clone() });
+        }
+      }
+    }};
+  }
+  if form.starts_with("local") {
+    go!(Subject<'static, Val, i64>)
+  } else {
+    go!(SubjectThreads<Val, i64>)
   }
   let l = log.lock().unwrap().clone();
   show(&canonical(&l))
